@@ -1,10 +1,12 @@
+\* the aliasing variant of MakeChainId (version prefix overwritten in the parent's buffer): HeaderMatchesId / ParentUnchangedByChild
+\* are expected to FAIL here - shows that the property is not vacuous.  Not run by the check.
 \* exhaustive design check: fork heights in {0,2,3} (all 81 configurations, also non-monotone ones), chains of <= 3 blocks, <= 3 start attempts
 SPECIFICATION Spec
 CONSTANTS
   Heights <- H3
   MaxBest = 3
   MaxStarts = 3
-  InPlace = FALSE
+  InPlace = TRUE
 VIEW view
 INVARIANTS TypeOK VersionMonotone ForkFlagsAgree VersionStable ReceiptFormatStable AssignedMonotone DbIsCfg HeaderMatchesId
 PROPERTIES ParentUnchangedByChild RestartSameAccepted RefusedStartNoChange
